@@ -25,6 +25,8 @@ import LdkModel.Proofs.Onion
 import LdkModel.Proofs.OnionAttr
 import LdkModel.Proofs.OnionFulfil
 import LdkModel.Proofs.OnionAttrIdx
+import LdkModel.Proofs.OnionInstr
+import LdkModel.Proofs.OnionBlinded
 import LdkModel.Proofs.OnionPayload
 namespace Ldk.C14
 open Ldk Ldk.Onion Ldk.OnionPayload
@@ -828,6 +830,234 @@ example :
 -- an out-of-order stream (what a writer without the sort emits) is rejected by the decoder
 example : decodeRecords inboundKnownTypes customTlvMin [(2, [1]), (4, [2]), (5482373487, [4]), (5482373484, [7])] =
     .error .invalidValue := by rfl
+
+/-! ## hop payloads as VALUES and BYTES: what a hop reads is what the sender meant
+
+   `HopInstr` (Model/OnionInstr.lean) is what a hop is told — amounts, expiries, channel id, payment secret / total,
+   metadata, keysend preimage, invoice_request, blinded-hop data, custom TLVs.  `HopInstr.encode` writes it with the
+   GENERATED payload constructors and the GENERATED value encodings of the writers (`writeEnc…`: from the value
+   expressions and declared field types of `impl Writeable for OutboundOnionPayload`); `readInstr` reads bytes the way
+   `InboundOnionPayload::read` does: BigSize length, TLV framing, the record loop, the GENERATED value encodings of the
+   reader (`inboundEnc`: from the `encoding:` annotations / declared types), the translated kind decision. -/
+
+/-- **Writer and reader use the same value encoding for every record** of every outer-onion payload kind
+    (both tables are extracted from msgs.rs on every run; e.g. amt: HighZeroBytesDroppedBigSize<u64> on both sides,
+    cltv: <u32>, short_channel_id: 8 bytes big-endian, payment_data: 32-byte secret ‖ HighZeroBytesDroppedBigSize<u64>). -/
+theorem payload_value_encodings_agree :
+    ∀ tbl ∈ [writeEncOnionForward, writeEncOnionReceive, writeEncOnionBlindedForward, writeEncOnionBlindedReceive,
+      writeEncOnionTrampolineEntrypoint], ∀ te ∈ tbl, encOf inboundEnc te.1 = te.2 := by decide
+
+example : encOf inboundEnc 2 = .hzbd 8 ∧ encOf inboundEnc 4 = .hzbd 4 ∧ encOf inboundEnc 6 = .be 8 ∧ encOf inboundEnc 8 = .secretTotal := by decide
+
+/-- **Every value encoding round-trips**, for every value of the encoding's type: truncated integers
+    (HighZeroBytesDroppedBigSize, any width: every `x < 256^w`, incl. 0 ↦ empty string), fixed-width integers,
+    fixed-size byte arrays, raw byte strings, payment_data. -/
+theorem payload_value_roundtrip (e : ValEnc) (v : HVal) (hv : v.valid e = true) : decodeVal e (encodeVal e v) = some v :=
+  decodeVal_encodeVal e v hv
+
+/-- HighZeroBytesDroppedBigSize: the writer's output is minimal (at most `w` bytes, no leading zero byte) and the reader
+    REJECTS every non-minimal or over-long encoding — so the encoding of a value is unique. -/
+theorem hzbd_canonical (w : Nat) :
+    (∀ x, (hzbdEnc w x).length ≤ w ∧ (hzbdEnc w x).head? ≠ some 0) ∧
+    (∀ x, x < 256 ^ w → hzbdDec w (hzbdEnc w x) = some x) ∧
+    (∀ b : Bytes, (b.head? = some 0 ∨ w < b.length) → hzbdDec w b = none) :=
+  ⟨fun x => ⟨hzbdEnc_length_le w x, hzbdEnc_minimal w x⟩, fun x hx => hzbd_roundtrip w x hx, hzbdDec_rejects w⟩
+
+example : hzbdEnc 8 0 = [] ∧ hzbdEnc 8 255 = [255] ∧ hzbdEnc 8 256 = [1, 0] ∧ hzbdEnc 4 800000 = [12, 53, 0] ∧
+    hzbdDec 8 [0, 1] = none ∧ hzbdDec 4 [1, 2, 3, 4, 5] = none ∧ hzbdDec 8 [1, 0] = some 256 := by decide
+
+/-- **Bytes round-trip**: for every record list whose types and value lengths fit a u64 (BigSize), parsing the
+    length-prefixed TLV stream `_encode_varint_length_prefixed_tlv!` wrote yields exactly the records. -/
+theorem payload_bytes_roundtrip (recs : List Rec) (hu : RecsU64 recs) (hl : (encodeRecords recs).length < 2 ^ 64) :
+    parsePayload (encodePayload recs) = some recs :=
+  parsePayload_encodePayload recs hu hl
+
+example : parsePayload (encodePayload [(2, [1, 0]), (4, [12, 53, 0]), (65537, [])]) = some [(2, [1, 0]), (4, [12, 53, 0]), (65537, [])] :=
+  payload_bytes_roundtrip _ (by intro r hr; simp at hr; rcases hr with rfl | rfl | rfl <;> decide) (by decide)
+
+/-- **Unknown types: even is rejected, odd is ignored** — the single-step law of the record loop of
+    `_decode_tlv_stream_range!`, in every state (any previous type, any remaining records): a record in order, of a
+    type the reader has no field for and below the custom-TLV range, makes the whole payload fail with
+    `UnknownRequiredFeature` when its type is even, and is skipped (neither a typed field nor a custom TLV) when odd. -/
+theorem unknown_even_rejected_odd_ignored (last : Option Nat) (t : Nat) (v : Bytes) (rest : List Rec)
+    (ho : orderBad last t = false) (hk : inboundKnownTypes.contains t = false) (hc : t < customTlvMin) :
+    (t % 2 = 0 → decodeGo inboundKnownTypes customTlvMin last ((t, v) :: rest) = .error .unknownRequired) ∧
+    (t % 2 = 1 → decodeGo inboundKnownTypes customTlvMin last ((t, v) :: rest) =
+      decodeGo inboundKnownTypes customTlvMin (some t) rest) := by
+  rw [decodeGo_unknown _ _ last t v rest ho hk hc]
+  constructor <;> intro h
+  · rw [if_pos h]
+  · rw [if_neg (by omega)]
+
+example : decodeRecords inboundKnownTypes customTlvMin [(2, [1]), (4, [2]), (14, [9])] = .error .unknownRequired ∧
+    decodeRecords inboundKnownTypes customTlvMin [(2, [1]), (4, [2]), (15, [9])] = .ok ([(2, [1]), (4, [2])], []) := by
+  constructor <;> rfl
+
+/-- the translated kind decision recognises the payload of every instruction (in a matching reader context) -/
+theorem instr_kind_recognised (i : HopInstr) (ubp : Bool) (inner : BlindedInner) (hc : i.ctxOk ubp inner = true) :
+    classifyInbound (presenceOf i.toOut.typedRecs) ubp inner = some i.kind := by
+  obtain ⟨k1, k2, k3, k4, k5⟩ := payload_kind_recognised
+  cases i with
+  | forward scid amt cltv =>
+    have : ubp = false := by simpa [HopInstr.ctxOk] using hc
+    subst this; exact k1 _ _ _ inner
+  | receive amt cltv pd md ks custom =>
+    have : ubp = false := by simpa [HopInstr.ctxOk] using hc
+    subst this; exact k2 _ _ _ _ _ _ inner
+  | trampolineEntrypoint amt cltv mp pkt pk =>
+    have : ubp = false := by simpa [HopInstr.ctxOk] using hc
+    subst this; exact k3 _ _ _ _ _ inner
+  | blindedForward enc bp =>
+    simp only [HopInstr.ctxOk, Bool.and_eq_true, beq_iff_eq] at hc
+    obtain ⟨h1, rfl⟩ := hc
+    exact k4 _ (bp.map _) ubp (by simpa using h1)
+  | blindedReceive amt total cltv enc bp ks ir custom =>
+    simp only [HopInstr.ctxOk, Bool.and_eq_true, beq_iff_eq] at hc
+    obtain ⟨h1, rfl⟩ := hc
+    exact k5 _ _ _ _ (bp.map _) _ _ _ ubp (by simpa using h1)
+
+/-- **decode_payload (encode_payload i) = i, for every well-formed instruction of every kind** (Forward, Receive with
+    or without payment_data / metadata / keysend / custom TLVs, BlindedForward, BlindedReceive with or without
+    keysend / invoice_request / custom TLVs, TrampolineEntrypoint): reading the bytes the sender wrote — framing, record
+    loop, value decoders, kind decision — yields the kind and EXACTLY the values the sender meant, custom TLVs included. -/
+theorem instr_roundtrip (i : HopInstr) (hv : i.Valid) (ubp : Bool) (inner : BlindedInner) (hc : i.ctxOk ubp inner = true) :
+    readInstr i.encode ubp inner = .ok (i.kind, i) := by
+  unfold readInstr HopInstr.encode
+  rw [parsePayload_encodePayload _ (instr_records_u64 i hv.customU64 (by have := hv.size; omega)) (by have := hv.size; omega)]
+  have hdec := payload_decodes_to_what_was_written i.toOut (toOut_outer i) (by rw [toOut_custom]; exact hv.custom)
+  obtain ⟨h1, h2⟩ := typed_values_decode i hv.values
+  simp only [hdec, h1, Bool.not_true, Bool.false_eq_true, if_false, instr_kind_recognised i ubp inner hc, toOut_custom, h2]
+
+/-- the serialized payload is self-delimiting for the onion layer's reader -/
+theorem instr_wellFramed (i : HopInstr) (hv : i.Valid) : WellFramed bigSizeFrame i.encode :=
+  wellFramed_encodePayload _ hv.size
+
+/-- **End to end: every hop reads exactly the instructions the sender wrote for it.** For every route of `n ≥ 1` hops
+    (any keys, any associated data / initial noise, any well-formed instructions of any kind per hop) whose serialized
+    payloads fit the packet: the sender's `build` succeeds; peeling layer after layer with each hop's own keys yields, at
+    hop `j`, a payload that `InboundOnionPayload::read` decodes to the kind and exactly the VALUES of the `j`-th
+    instruction — nothing of any other hop's.  (`hnz`: the inner HMACs are not the all-zero "final" marker, as in
+    `peel_build`; `hctx`: each hop reads in the context matching its kind.) -/
+theorem hops_read_their_instructions (C : OnionCrypto) (ad noise : Bytes) (route : List (HopKeys × HopInstr))
+    (ctx : Nat → Bool × BlindedInner)
+    (hne : route ≠ [])
+    (hvalid : ∀ ki ∈ route, ki.2.Valid)
+    (hfit : totalSize (route.map fun ki => ⟨ki.1.rho, ki.1.mu, ki.2.encode⟩) ≤ noise.length)
+    (hnz : ∀ j, 0 < j → j < route.length →
+      (packetAt C ad noise (route.map fun ki => ⟨ki.1.rho, ki.1.mu, ki.2.encode⟩) j).2 ≠ zeros 32)
+    (hctx : ∀ j (hj : j < route.length), route[j].2.ctxOk (ctx j).1 (ctx j).2 = true) :
+    let hops : List Hop := route.map fun ki => ⟨ki.1.rho, ki.1.mu, ki.2.encode⟩
+    build C ad noise hops = some (packetAt C ad noise hops 0) ∧
+    ∃ ps : List Bytes, peelChain C bigSizeFrame ad (hops.map Hop.keys) (packetAt C ad noise hops 0) = some ps ∧
+      ps.length = route.length ∧
+      ∀ j (hj : j < route.length), readInstr (ps.getD j []) (ctx j).1 (ctx j).2 = .ok (route[j].2.kind, route[j].2) := by
+  intro hops
+  have hlen : hops.length = route.length := by simp [hops]
+  have hpb := peel_build C bigSizeFrame ad noise hops (by simpa [hops] using hne) hfit
+    (by
+      intro h hh
+      obtain ⟨ki, hki, rfl⟩ := List.mem_map.mp hh
+      exact instr_wellFramed ki.2 (hvalid ki hki))
+    (by intro j h0 h1; exact hnz j h0 (hlen ▸ h1))
+  refine ⟨hpb.1, hops.map (·.payload), hpb.2.2, by simp [hops], fun j hj => ?_⟩
+  have : (hops.map (·.payload)).getD j [] = route[j].2.encode := by
+    simp [hops, List.getD_eq_getElem?_getD, List.getElem?_map, List.getElem?_eq_getElem hj]
+  rw [this]
+  exact instr_roundtrip _ (hvalid _ (List.getElem_mem hj)) _ _ (hctx j hj)
+
+-- non-vacuity: a forwarding instruction and a blinded hop's instruction
+example : (HopInstr.forward 0x123456789abcdef0 1000 800000).Valid :=
+  HopInstr.Valid.mk (by decide) (ValidCustom.mk List.Pairwise.nil (fun r hr => by simp [HopInstr.custom] at hr))
+    (fun r hr => by simp [HopInstr.custom] at hr) (by decide)
+example : readInstr (HopInstr.forward 0x123456789abcdef0 1000 800000).encode false .forward =
+    .ok (.forward, .forward 0x123456789abcdef0 1000 800000) :=
+  instr_roundtrip _ (HopInstr.Valid.mk (by decide) (ValidCustom.mk List.Pairwise.nil (fun r hr => by simp [HopInstr.custom] at hr))
+    (fun r hr => by simp [HopInstr.custom] at hr) (by decide)) _ _ rfl
+example : (HopInstr.forward 0x123456789abcdef0 1000 800000).encode =
+    [0x13, 2, 2, 0x03, 0xe8, 4, 3, 0x0c, 0x35, 0x00, 6, 8, 0x12, 0x34, 0x56, 0x78, 0x9a, 0xbc, 0xde, 0xf0] := by decide
+example : readInstr (HopInstr.blindedForward [9, 9, 9] (some (zeros 33))).encode false .forward =
+    .ok (.blindedForward, .blindedForward [9, 9, 9] (some (zeros 33))) :=
+  instr_roundtrip _ (HopInstr.Valid.mk (by decide) (ValidCustom.mk List.Pairwise.nil (fun r hr => by simp [HopInstr.custom] at hr))
+    (fun r hr => by simp [HopInstr.custom] at hr) (by decide)) _ _ rfl
+
+/-! ## failures in and around blinded payment paths
+
+   `getHtlcForwardFailure` (channelmanager.rs::get_htlc_forward_failure, every arm), the `Reason` arm of
+   get_encrypted_failure_packet, the failure code `BADONION | PERM | 24`, and the blinded-hop branches of the sender's
+   loop (`decodeGoB`: `None =>` arm, `is_from_final_non_blinded_node`, `match next_hop`, their position BEFORE the
+   decryption) are TRANSLATED from the Rust source on every run (Generated/OnionBlinded.lean). -/
+
+/-- **What comes out of a blinded path says nothing about its inside.** A node INSIDE a blinded path never produces an
+    onion error packet: it answers with update_fail_malformed_htlc, code invalid_onion_blinding, all-zero
+    sha256_of_onion — whatever the failure was.  The INTRODUCTION node answers every failure — its own or whatever it
+    received from inside (`onion_error` is ignored) — with one and the same packet: invalid_onion_blinding with 32 zero
+    bytes, built and encrypted with ITS OWN shared secret, hold time 0. -/
+theorem blinded_failure_conversion (C : OnionCrypto) (k : FailKeysX) (onion_error : OnionError) :
+    getHtlcForwardFailure C (some .fromBlindedNode) onion_error k = .failMalformed INVALID_ONION_BLINDING (zeros 32) ∧
+    getHtlcForwardFailure C (some .fromIntroductionNode) onion_error k =
+      .failHtlc (buildFailurePacket C k INVALID_ONION_BLINDING (zeros 32) 0) ∧
+    INVALID_ONION_BLINDING = 0xC018 ∧ INVALID_ONION_BLINDING &&& BADONION = BADONION :=
+  ⟨rfl, rfl, by decide, by decide⟩
+
+/-- **The sender never attributes a failure to a node inside or after the blinded section — for ANY packet.**
+    Path: hops `pre` before the introduction node, the introduction node `kI`, at least one blinded hop after it
+    (`kb :: bl`).  Whatever bytes come back (honest, corrupted, forged by anyone): the sender either reports "failed
+    within the blinded path" — decided exactly when its loop stands at the introduction node, without naming a channel
+    or a node — or names, by a verified `um` HMAC, a hop STRICTLY BEFORE the introduction node, or nothing
+    (packet shorter than an HMAC).  No outcome names the introduction node's successors. -/
+theorem blinded_failure_never_attributed_inside (C : OnionCrypto) (nb : Nat) (pre : List FailKeys) (kI kb : FailKeys)
+    (bl : List FailKeys) (pkt : Bytes) :
+    match decodeFailureB C nb (pathHops (pre ++ [kI]) (kb :: bl)) pkt with
+    | .withinBlindedPath h => h = pre.length
+    | .plain d => ∀ h, d.hop? = some h → h < pre.length := by
+  unfold decodeFailureB
+  by_cases hl : pkt.length < 32
+  · rw [if_pos hl]
+    simp [FailDecoded.hop?]
+  · rw [if_neg hl]
+    rcases decodeGoB_cases C nb kI kb bl pre 0 pkt with h | ⟨j, hj, p, h⟩
+    · rw [h]; simp
+    · rw [h]
+      intro x hx
+      rw [parseFailure_hop] at hx
+      cases hx; omega
+
+/-- **A failure from inside the blinded path is attributed to the blinded path at the introduction node.** For every
+    path (relaying hops `pre` with their keys and hold times, the introduction node `kI`, blinded hops `kb :: bl`), and
+    WHATEVER happened inside (`onion_error` arbitrary: the introduction node discards it): the packet the introduction
+    node produces (`get_htlc_forward_failure(Some(FromIntroductionNode), ..)`), relayed by the hops before it
+    (`process_failure_packet` + `crypt_failure_packet`), makes the sender report "failed within the blinded path" with
+    its loop at the introduction node — provided no earlier hop's `um` HMAC verifies by accident on what it relayed
+    (`NoEarlyMatch`, as in `failure_roundtrip`). -/
+theorem blinded_failure_attributed_to_introduction_node (C : OnionCrypto) (nb : Nat) (pre : List RelayHop)
+    (kI : FailKeysX) (kb : FailKeys) (bl : List FailKeys) (onion_error : OnionError)
+    (hno : NoEarlyMatch C (pre.map (fun kh => kh.1.base)) (buildFailure C kI.base INVALID_ONION_BLINDING (zeros 32))) :
+    ∃ P0, getHtlcForwardFailure C (some .fromIntroductionNode) onion_error kI = .failHtlc P0 ∧
+      decodeFailureB C nb (pathHops (pre.map (fun kh => kh.1.base) ++ [kI.base]) (kb :: bl)) (relayChainX C pre P0).data =
+        .withinBlindedPath pre.length := by
+  refine ⟨buildFailurePacket C kI INVALID_ONION_BLINDING (zeros 32) 0, rfl, ?_⟩
+  unfold decodeFailureB
+  rw [relayChainX_data, buildFailurePacket_eq]
+  rw [if_neg (by rw [relayFailure_length, buildFailure_length]; omega)]
+  have := decodeGoB_relay C nb kI.base kb bl _ (pre.map (fun kh => kh.1.base)) 0 hno
+  simpa using this
+
+/-- **A ONE-hop blinded path** (the recipient is the introduction node, `num_blinded_hops ≤ 1`): the sender's loop is the
+    legacy one — every hop, including the introduction node / recipient, is named by its HMAC as in `failure_roundtrip`. -/
+theorem one_hop_blinded_path_is_legacy (C : OnionCrypto) (nb : Nat) (hnb : nb ≤ 1) (ks : List FailKeys) (pkt : Bytes) :
+    decodeFailureB C nb (pathHops ks []) pkt = .plain (decodeFailure C ks pkt) := by
+  unfold decodeFailureB decodeFailure
+  split
+  · rfl
+  · exact decodeGoB_one_hop C nb hnb ks 0 pkt
+
+-- non-vacuity (toy stream / MAC): two hops, the introduction node, two blinded hops; the introduction node's packet
+-- relayed by the two hops: NoEarlyMatch holds, the sender reports "within blinded path" at hop 2
+example : decodeFailureB toy 3 (pathHops (toyFailKeys.take 2 ++ [⟨[5], [6, 6]⟩]) [⟨[7], [8]⟩, ⟨[9], [1]⟩])
+    (relayFailure toy (toyFailKeys.take 2) (buildFailure toy ⟨[5], [6, 6]⟩ INVALID_ONION_BLINDING (zeros 32))) = .withinBlindedPath 2 := by
+  set_option maxRecDepth 100000 in decide
+example : NoEarlyMatch toy (toyFailKeys.take 2) (buildFailure toy ⟨[5], [6, 6]⟩ INVALID_ONION_BLINDING (zeros 32)) := by
+  refine ⟨?_, ?_, trivial⟩ <;> (set_option maxRecDepth 100000 in decide)
 
 /-! ## non-vacuity (a toy stream/MAC, evaluated by the kernel) -/
 
